@@ -34,7 +34,7 @@ frame when its PES packet is one TS packet).
 -/
 namespace Zvbi.Props.C06Join
 open Zvbi.Mux Zvbi.Mux.EnParse
-open Zvbi.Demux (SrcCfg St FrameOut pesFeeds pesFeed frames ofLine AscFrom lastLineOf firstLine Sep SepFrom LinesOK outOf Holds)
+open Zvbi.Demux (SrcCfg St FrameOut pesFeeds pesFeed frames ofLine AscFrom lastLineOf firstLine Sep SepFrom FrameLinesOK outOf Holds)
 
 /-- **output bytes < 256.** PES mode, every history: every value handed to the callback is a byte. -/
 theorem mux_output_bytes (m : Mux) (hp : m.cfg.pid = 0) (ops : List Op) (hops : ∀ op ∈ ops, Op.OK op) :
